@@ -201,7 +201,7 @@ def r3d_var_array_lengths(rule, root=None):
     for e_ in errs:
         conds = [c.replace(" ", "") for c in (A.enclosing_conds(fn["body"], e_) or [])]
         for c in conds:
-            m = re.fullmatch(r"\(?(\w+)\.len\(\)!=(\w+)\.len\(\)\)?", c)
+            m = re.fullmatch(r"\(?(\w+)\.len\(\)!=(\w+)\.len\(\)\)?", c) or re.fullmatch(r"!\(?\(?(\w+)\.len\(\)==(\w+)\.len\(\)\)?\)?", c)
             if m and row in (m.group(1), m.group(2)) and m.group(1) != m.group(2):
                 ok_any = True
     if ok_any:
